@@ -1,2 +1,3 @@
 pub mod est;
+pub mod policy;
 pub mod text;
